@@ -36,6 +36,7 @@ pub struct Run {
     pub extern_contents: Option<Vec<Passkey>>,
     /// the descriptors of the current request carry an unknown credential type
     pub unknown_type: bool,
+    pub run_idx: u64,
 }
 
 fn alg_of(name: &str) -> iana::Algorithm {
@@ -48,8 +49,9 @@ fn alg_of(name: &str) -> iana::Algorithm {
 }
 
 pub fn build_auth(cfg: &Value, creds: Vec<Passkey>, sh: &Sh) -> Auth {
-    let store = new_store(
+    let store = new_store_wrapped(
         cfg["storeKind"].as_str().unwrap(),
+        cfg["wrap"].as_str().unwrap_or("none"),
         cfg["disc"].as_str().unwrap(),
         cfg["emptyAsErr"].as_bool().unwrap(),
         creds,
@@ -78,10 +80,11 @@ pub fn build_auth_with<S: passkey_authenticator::CredentialStore>(cfg: &Value, s
 
 impl Run {
     pub fn new(seed: u64) -> Self {
-        Run { sh: new_shared(), client: None, cfg: Value::Null, rng: util::rng(seed), salts: vec![], cdh: vec![], seen_ids: vec![], extern_contents: None, unknown_type: false }
+        Run { sh: new_shared(), client: None, cfg: Value::Null, rng: util::rng(seed), salts: vec![], cdh: vec![], seen_ids: vec![], extern_contents: None, unknown_type: false, run_idx: 0 }
     }
 
     pub fn reset(&mut self, run: u64, cfg: &Value, store: &Value) {
+        self.run_idx = run;
         self.sh = new_shared();
         self.cfg = cfg.clone();
         let mut creds = vec![];
@@ -111,6 +114,13 @@ impl Run {
         }
         let mut s = [0u8; 32];
         self.rng.fill_bytes(&mut s);
+        // every fourth run uses degenerate values for the request-wide evaluation inputs (all zero / all ones): a
+        // caller chooses its salts, and a secret that is derivable from another through such an input must show
+        match (self.run_idx % 4, name) {
+            (1, "e2") | (2, "e1") => s = [0u8; 32],
+            (2, "e2") => s = [0xffu8; 32],
+            _ => {}
+        }
         self.salts.push((name.to_string(), s));
         s
     }
